@@ -316,7 +316,16 @@ def run_history(case, two_d_monitors=False):
                 ops.append(('set_pva',))
                 newp_copy = newp.copy()
                 before_rows = I.trajectory.iloc[:-1].copy()
-                I.set_pva(newp)
+                if rng.random() < 0.2:
+                    # the documented Pva type is a label set: the same state with its labels in another order
+                    given = newp[list(rng.permutation(TRAJ))]
+                    given_copy = given.copy()
+                    I.set_pva(given)
+                    bump('set_pva_with_permuted_labels')
+                    if not same_bits(given.values, given_copy.values) or list(given.index) != list(given_copy.index):
+                        fail(vio('argument_modified', 'set_pva modified the (label-permuted) state passed to it'))
+                else:
+                    I.set_pva(newp)
                 bump('set_pva_calls')
                 if not same_bits(newp.values, newp_copy.values):
                     fail(vio('argument_modified', 'set_pva modified the state passed to it'))
